@@ -20,6 +20,9 @@ import subprocess
 import sys
 import time
 
+sys.path.insert(0, os.path.dirname(os.path.abspath(__file__)))
+import factlint  # noqa: E402  (static hygiene of the fact tie: unconsumed facts, auto-param binders)
+
 VERIF = os.path.dirname(os.path.dirname(os.path.abspath(__file__)))
 REPO = os.environ.get("VERIF_REPO", "/repo")
 BUILD = os.path.join(VERIF, "build")
@@ -145,6 +148,11 @@ class Run:
         self.discharged = 0
         self.axioms = {}
         self.checker_cmds = []
+        # hooks for runner/apicov.py (coverage-instrumented harness builds); empty in a normal check
+        self.build_flags = []
+        self.bin_suffix = ""
+        self.extra_env = {}
+        self.extra_test_args = []
 
     def log(self, name, text):
         with open(os.path.join(self.rundir, name), "w") as f:
@@ -201,6 +209,22 @@ class Run:
                     if mm:
                         self.ties.append({"tie": "proof-hygiene", "what": "%s contains forbidden token %r" % (m, mm.group(0).strip())})
 
+            # static hygiene of the fact tie (runner/factlint.py): generated definitions nothing consumes,
+            # and `(h : fact = true := by decide)` binders (autoParam: not an obligation). Always in the
+            # evidence; broken ties once the property opts in with "strict_facts": true.
+            try:
+                lint = factlint.lint(cfg)
+            except Exception as e:  # a lint bug must never hide a real result
+                lint = {"unconsumed_facts": [], "autoparam_binders": [], "error": repr(e)}
+            self.notes["factlint"] = lint
+            if cfg.get("strict_facts"):
+                for u in lint["unconsumed_facts"]:
+                    self.ties.append({"tie": "fact-hygiene", "what": "generated fact Juniper.Gen.%s is consumed by no model, proof or property file: it can change without any theorem noticing" % u})
+                for b in lint["autoparam_binders"]:
+                    self.ties.append({"tie": "fact-hygiene", "what": "auto-param binder (an assumption, not an obligation; discharge the fact inside the proof or through a proved tie lemma): " + b})
+                if lint.get("error"):
+                    self.ties.append({"tie": "fact-hygiene", "what": "factlint failed: " + lint["error"]})
+
             cmd = ["lake", "build"] + props
             self.checker_cmds.append("cd lean && " + " ".join(cmd))
             rc, out = sh(cmd, cwd=LEAN, timeout=3000)
@@ -216,7 +240,8 @@ class Run:
                     self.ties.append({"tie": "proof", "what": "lake build %s failed: %s" % (" ".join(props), out[-600:])})
             self.discharged = max(0, self.obligations - max(len(failed), 1 if rc != 0 else 0))
 
-            # axiom audit of the property theorems
+            # axiom audit of the property theorems (+ `#check @thm`: an elaborated type that mentions
+            # autoParam is an auto-param binder the static scan may have missed, e.g. through `variable`)
             if rc == 0 and self.notes["property_theorems"]:
                 audit = os.path.join(self.rundir, "Audit.lean")
                 with open(audit, "w") as f:
@@ -224,10 +249,23 @@ class Run:
                         f.write("import %s\n" % p)
                     for t in self.notes["property_theorems"]:
                         f.write("#print axioms %s\n" % t)
+                    for t in self.notes["property_theorems"]:
+                        if ".Props.Pin" not in t:
+                            f.write('#print "##CHECK %s"\n#check @%s\n' % (t, t))
+                    f.write('#print "##END"\n')
                 cmd = ["lake", "env", "lean", audit]
                 self.checker_cmds.append("cd lean && lake env lean <Audit.lean: #print axioms of every property theorem>")
                 rc2, out2 = sh(cmd, cwd=LEAN, timeout=1200)
                 self.log("audit.log", out2)
+                out2, _, checks_out = out2.partition("##CHECK ")
+                have = " ".join(self.notes["factlint"]["autoparam_binders"])
+                for chunk in checks_out.split("##CHECK "):
+                    name, _, body = chunk.partition("\n")
+                    if "autoParam" in body.split("##END")[0] and name.strip().split(".")[-1] not in have:
+                        b = "%s (autoParam in the elaborated type)" % name.strip()
+                        self.notes["factlint"]["autoparam_binders"].append(b)
+                        if cfg.get("strict_facts"):
+                            self.ties.append({"tie": "fact-hygiene", "what": "auto-param binder (an assumption, not an obligation): " + b})
                 if rc2 != 0:
                     self.ties.append({"tie": "axiom-audit", "what": "audit failed: " + out2[-400:]})
                 for mm in re.finditer(r"'([^']+)' depends on axioms: \[([^\]]*)\]", out2.replace("\n", " ")):
@@ -303,14 +341,14 @@ class Run:
     def build_harness(self, h):
         moddir = h.get("module", "harness")
         gobin = h.get("go", "go")
-        out = os.path.join(BUILD, "bin", h["name"] + ("" if REPO == "/repo" else "-" + hashlib.sha256(REPO.encode()).hexdigest()[:8]))
+        out = os.path.join(BUILD, "bin", h["name"] + self.bin_suffix + ("" if REPO == "/repo" else "-" + hashlib.sha256(REPO.encode()).hexdigest()[:8]))
         mf = self.modfile(moddir)
         extra = ["-modfile=" + mf] if mf else []
         tags = "verif" + (",race" if False else "")
         if h.get("kind") == "test":
-            cmd = [gobin, "test", "-c", "-tags", tags] + extra + (["-race"] if h.get("race") else []) + ["-o", out, h["pkg"]]
+            cmd = [gobin, "test", "-c", "-tags", tags] + extra + self.build_flags + (["-race"] if h.get("race") else []) + ["-o", out, h["pkg"]]
         else:
-            cmd = [gobin, "build", "-tags", tags] + extra + (["-race"] if h.get("race") else []) + ["-o", out, h["pkg"]]
+            cmd = [gobin, "build", "-tags", tags] + extra + self.build_flags + (["-race"] if h.get("race") else []) + ["-o", out, h["pkg"]]
         rc, o = sh(cmd, cwd=os.path.join(VERIF, moddir), env=GOENV, timeout=900)
         self.log("build_%s.log" % h["name"], o)
         if rc != 0:
@@ -331,8 +369,9 @@ class Run:
                    VERIF_OUT=outp, VERIF_CORPUS=os.path.join(VERIF, "corpus", self.prop),
                    VERIF_BUDGET_MS=str(budget), VERIF_DEEP="1" if deep else "", VERIF_REPO=REPO,
                    VERIF_REPLAY=replay or "")
+        env.update(self.extra_env)
         if h.get("kind") == "test":
-            cmd = [exe, "-test.run", h.get("run", "TestVerif"), "-test.timeout", "0", "-test.count", "1"]
+            cmd = [exe, "-test.run", h.get("run", "TestVerif"), "-test.timeout", "0", "-test.count", "1"] + self.extra_test_args
         else:
             cmd = [exe]
         timeout = budget / 1000.0 * h.get("timeout_factor", 6) + 120
@@ -502,6 +541,9 @@ class Run:
             "generated_fact_fingerprint": self.notes.get("fact_fingerprint"),
             "generated_fact_fingerprints": self.notes.get("fact_fingerprints"),
             "broken_ties": self.ties,
+            "unconsumed_facts": (self.notes.get("factlint") or {}).get("unconsumed_facts", []),
+            "autoparam_binders": (self.notes.get("factlint") or {}).get("autoparam_binders", []),
+            "strict_facts": bool(cfg.get("strict_facts")),
             "escalated_search": bool(self.notes.get("escalated_search")),
             "leanchecker": self.notes.get("leanchecker", "not run (quick tier)"),
             "repo": REPO,
